@@ -296,6 +296,19 @@ def main():
                                         text = first
                                         break
                         by_status[status] = by_status.get(status, 0) + 1
+                        if status not in ("ok", "no-kernel") and cfg.get("dump"):     # development aid: the call that failed
+                            def _short(v):
+                                if isinstance(v, torch.Tensor):
+                                    return f"T{tuple(v.shape)}{str(v.dtype).replace('torch.', '')}" + (str(v.flatten().tolist()[:6]) if v.numel() <= 6 else "")
+                                if isinstance(v, (list, tuple)):
+                                    return "[" + ",".join(_short(w) for w in v) + "]"
+                                return repr(v)
+                            text += " ARGS=" + ",".join(_short(v) for v in inputs) + " KW=" + ",".join(f"{k}={_short(v)}" for k, v in kw.items())
+                            try:
+                                text += " TORCH=" + ";".join(_short(w) for w in pytree.tree_flatten(torch_output)[0])[:200]
+                                text += " ORT=" + ";".join(_short(torch.tensor(w)) for w in pytree.tree_flatten(got)[0])[:200]
+                            except Exception:
+                                pass
                         if status not in ("ok", "no-kernel"):
                             key = key_base + "|" + status
                             mismatches.append(key)
